@@ -795,7 +795,16 @@ func c25CheckDispatch(e *vsched.Enum, client remoteclient.Client, order []c25Reg
 		}
 		e.Fail(sig, input, "Serializer(msg) = %s, registered for the type (%s match) = %s", c25SerName(got), how, c25SerName(want))
 	}
-	obs := c25SerName(got)
+	// observation: the resolved serializer and the position of the registration it came from
+	// (0 = built-in proto.Message entry / none)
+	pos := 0
+	for i, rg := range order {
+		if got != nil && rg.ser == got && (rg.typ == reflect.TypeOf(m) || (rg.isIface && reflect.TypeOf(m).Implements(rg.typ))) {
+			pos = i + 1
+			break
+		}
+	}
+	obs := fmt.Sprintf("%s@%d/%d", c25SerName(got), pos, len(order))
 	if got == nil {
 		// nobody supports the message: the composite must refuse too (error, no bytes)
 		b, err := client.Serializer(nil).Serialize(m)
@@ -898,11 +907,9 @@ func TestVerifC25(t *testing.T) {
 		c25Permutations(len(pool), maxK, func(idx []int) {
 			order := make([]c25Reg, len(idx))
 			labels := make([]string, len(idx))
-			dup := map[reflect.Type]bool{}
 			for i, k := range idx {
 				order[i] = pool[k]
 				labels[i] = pool[k].label
-				dup[pool[k].typ] = true
 			}
 			var client remoteclient.Client
 			for _, m := range msgs {
